@@ -4,6 +4,7 @@ import OpusModel.SilkSynthIdxFrame
 import OpusModel.SilkSynthIdxParams
 import OpusModel.SilkSynthIdxOut
 import OpusModel.SilkStereo
+import OpusModel.SilkStereoEnc
 import OpusModel.RangeCoder
 import OpusModel.SilkSyms
 import Driver.Util
@@ -274,6 +275,32 @@ def handle : List String → String
     | _, _, _ => "bad-op"
   | ["stereo-tabs"] =>
     s!"OK {intList Opus.SilkStereo.tab} {natList Opus.Gen.SilkStereoTabs.predJointIcdf} {natList Opus.Gen.SilkStereoTabs.uniform3Icdf} {natList Opus.Gen.SilkStereoTabs.uniform5Icdf} {natList Opus.Gen.SilkStereoTabs.onlyCodeMidIcdf} {Opus.SilkStereo.subSteps} {Opus.SilkStereo.halfSubStepQ16}"
+  | ["stereo-findpred", nrgx, s1, nrgy, s2, corr, a0, a1, coef] =>
+    match [nrgx, s1, nrgy, s2, corr, a0, a1, coef].mapM parseInt with
+    | some [nrgx, s1, nrgy, s2, corr, a0, a1, coef] =>
+      if s1 < 0 ∨ s2 < 0 ∨ s1 > 31 ∨ s2 > 31 then "bad-op"
+      else
+        let r := Opus.SilkStereo.findPredictor nrgx s1 nrgy s2 corr a0 a1 coef
+        s!"OK {r.pred} {r.ratio} {r.amp0} {r.amp1}"
+    | _ => "bad-op"
+  | ["stereo-lrpreds", smth, wprev, rate, fs, is10, act, toMono, p0, l0, p1, l1] =>
+    match [smth, wprev, rate, fs, is10, act, toMono, p0, l0, p1, l1].mapM parseInt with
+    | some [smth, wprev, rate, fs, is10, act, toMono, p0, l0, p1, l1] =>
+      let x : Opus.SilkStereo.LrIn :=
+        { smth := smth, widthPrev := wprev, totalRate := rate, fsKHz := fs, is10ms := is10 ≠ 0, act := act, toMono := toMono ≠ 0 }
+      let r := Opus.SilkStereo.lrPreds x p0 l0 p1 l1
+      s!"OK {r.q0} {r.q1} {r.smth} {r.width}"
+    | _ => "bad-op"
+  | ["stereo-midonly", flag, size] =>
+    match parseNat flag, parseNat size with
+    | some flag, some size =>
+      if flag > 1 ∨ size < 2 ∨ size > 64 then "bad-op"
+      else
+        let sy := Opus.SilkStereo.encodeMidOnlySym flag
+        let e := Opus.RangeCoder.encDone (Opus.RangeCoder.encIcdf (Opus.RangeCoder.encInit (List.replicate size 0) size) sy.1.toNat sy.2 8)
+        let d := Opus.SilkSyms.stereoDecodeMidOnly (Opus.RangeCoder.decInit e.buf size)
+        s!"OK {toHex e.buf} {e.error} {d.1}"
+    | _, _ => "bad-op"
   | _ => "bad-op"
 
 end Driver.SuiteSilkParams
